@@ -57,6 +57,44 @@ def closes_transport(repo, cg, fi, call, attr, depth=2, recv=None):
     return False
 
 
+def _locally_cancelled(fi, call):
+    """the task started by `call` is bound to a local name T and `T.cancel()` sits in the finally of a try that either
+    contains the start or follows it immediately"""
+    parents = {}
+    for n in ast.walk(fi.node):
+        for c in ast.iter_child_nodes(n):
+            parents[c] = n
+    st = call
+    while st in parents and not isinstance(st, ast.stmt):
+        st = parents[st]
+    if not (isinstance(st, ast.Assign) and len(st.targets) == 1 and isinstance(st.targets[0], ast.Name) and st.value is call):
+        return False, "does not bind it to a local name"
+    name = st.targets[0].id
+
+    def cancels(body):
+        for x in body:
+            for n in ast.walk(x):
+                if isinstance(n, ast.Call) and isinstance(n.func, ast.Attribute) and n.func.attr == "cancel" and isinstance(n.func.value, ast.Name) and n.func.value.id == name:
+                    return True
+        return False
+    # (a) the start is inside a try whose finally cancels
+    p = st
+    while p in parents:
+        q = parents[p]
+        if isinstance(q, ast.Try) and p in q.body and cancels(q.finalbody):
+            return True, ""
+        p = q
+    # (b) the next statement is such a try
+    blk = parents.get(st)
+    for fld in ("body", "orelse", "finalbody"):
+        seq = getattr(blk, fld, None)
+        if isinstance(seq, list) and st in seq:
+            i = seq.index(st)
+            if i + 1 < len(seq) and isinstance(seq[i + 1], ast.Try) and cancels(seq[i + 1].finalbody):
+                return True, ""
+    return False, f"no `finally` cancels `{name}` on the exceptional exit"
+
+
 def check(ctx):
     repo = Repo()
     cg = callgraph(repo)
@@ -284,6 +322,26 @@ def check(ctx):
     from .c08 import reset_by_interpretation
     reset_by_interpretation(ctx.borrowed("R5", "C08", key_contains="::disconnects-what-exists"), repo, "I6")
     reset_survives_self_cancel(ctx, repo, "R7")
+
+    # ---- R9 who may start a task -----------------------------------------------------------------------------------
+    # cancel_key_tasks / gather only reach tasks the registry knows.  A task started behind its back (a timer raced
+    # against a future, a fire-and-forget ensure_future) outlives the reset unless the function that started it cancels
+    # it on EVERY exit - the exceptional one (CancelledError while it waits) included.
+    ctx.rule("R9", "who may start a task: asyncio.create_task / ensure_future / loop.create_task / run_coroutine_threadsafe appear only in AsyncTasks.add_task (the registry that reset and context exit cancel); elsewhere the started task must be bound to a local that a `finally` of the same function cancels, with nothing but the binding between the start and the protected region")
+    starters = ("create_task", "ensure_future", "run_coroutine_threadsafe")
+    n_start = 0
+    for fi in repo.all_functions():
+        for node in walk_no_nested(fi.node):
+            if not (isinstance(node, ast.Call) and call_name(node) in starters):
+                continue
+            n_start += 1
+            if fi.qual == "AsyncTasks.add_task":
+                continue
+            ok, why = _locally_cancelled(fi, node)
+            ctx.ob("R9", f"{fi.qual}::{call_name(node)}-{sum(1 for x in walk_no_nested(fi.node) if isinstance(x, ast.Call) and call_name(x) in starters and x.lineno <= node.lineno)}", ok,
+                   f"{fi.qual}: `{ast.unparse(node)[:80]}` starts a task outside the AsyncTasks registry and {why}: when the waiting task is cancelled (reset, disconnect, context exit) "
+                   f"the started task stays alive - no cancel_key_tasks / gather reaches it", loc(fi, node))
+    ctx.floor("R9", "task-start sites", n_start, 1)
 
     # ---- R8 nothing of a connection is shared with the next one through a default argument ------------------------
     # a mutable default (`queue=AsyncPeekableQueue()`, `handlers=[]`) is evaluated once, at definition: every object
